@@ -5,4 +5,6 @@ pub mod cmr;
 pub mod eval;
 pub mod jets;
 pub mod layout;
+pub mod unify;
 pub mod wire;
+pub mod c14_decls;
